@@ -95,9 +95,9 @@ def oracle_step(case, ctx):
                     ctx.fail(f'{what} with an action outside the action space raised {type(e).__name__}, not ValueError', {'kind': 'reject'})
                 else:
                     ctx.fail(f'{what} accepted action {a} outside the action space {allowed}', {'kind': 'reject'})
-            if env.state is not s0 or objs.canon_state(env.state) != c0 or objs.canon_state(s) != sd:
+            if objs.canon_state(env.state) != c0 or objs.canon_state(s) != sd:
                 ctx.fail('rejected action changed the state', {'kind': 'reject'})
-            if env.observation is not o0 or objs.canon_state(env.observation) != co0:
+            if objs.canon_state(env.observation) != co0 or objs.canon_state(o0) != co0:      # by value: whether the same object is handed out again is not part of the property
                 ctx.fail('rejected action changed the memoised observation', {'kind': 'reject'})
             ctx.ev.case(case, nt=True, classes=['rejected_action'])
             return
